@@ -37,7 +37,7 @@ ASSUMPTIONS = [
 ]
 EXHAUSTIVE = "all 720 (section order x ~A position) layouts; every title spelling of every section kind"
 REQUIRED = ["reads", "tags_checked", "cells_checked", "layouts_data_not_last", "lowercase_title_cases", "steering_name_cases",
-            "custom_sections_checked", "other_lines_checked"]
+            "custom_sections_checked", "other_lines_checked", "other_sections_with_blank_lines"]
 SOFT_DEADLINE = {"quick": 90, "thorough": 1200}
 LEVEL_TEXT = ("Exploration with an exactly-once conservation oracle over unique tags and coordinate-carrying cells; the "
               "section-order space (720 layouts) and the documented title spellings are enumerated completely.")
@@ -118,7 +118,10 @@ def build(case):
         elif kind == "P":
             secs.append({"kind": "P", "title": title("P"), "items": [["PX%d" % i, "pu", "pv%d" % i, t()] for i in range(rng.randint(0, 5))]})
         elif kind == "O":
-            secs.append({"kind": "O", "title": title("O"), "lines": ["%s free text %d" % (t(), i) for i in range(rng.randint(0, 3))]})
+            olines = ["%s free text %d" % (t(), i) for i in range(rng.randint(0, 3))]
+            for _ in range(rng.choice([0, 0, 1, 2])):       # blank lines are content of the free-text section too
+                olines.insert(rng.randint(0, len(olines)), rng.choice(["", "   "]))
+            secs.append({"kind": "O", "title": title("O"), "lines": olines})
         elif kind == "A":
             rows = [["%d.%03d" % (i + 1, j + 1) for j in range(c)] for i in range(r)]
             if c >= 2:
@@ -186,10 +189,14 @@ def run_case(case, ctx):
             continue
         got = las.sections.get(key)
         if kind == "O":
-            want = "\n".join(s["lines"])
+            # blank lines may be kept or dropped (the statement is about attribution): compare the non-empty lines
+            want = [ln.strip() for ln in s["lines"] if ln.strip()]
             ctx.count("other_lines_checked", len(s["lines"]))
-            if got != want:
-                V("other-text:%s" % cls, "~Other text is %r, expected %r" % (got, want), detail)
+            if any(not ln.strip() for ln in s["lines"]):
+                ctx.count("other_sections_with_blank_lines")
+            got_lines = [ln for ln in (got or "").split("\n") if ln.strip()] if isinstance(got, str) else None
+            if got_lines != want:
+                V("other-text:%s" % cls, "~Other text is %r, expected the lines %r" % (got, want), detail)
             continue
         if got is None or isinstance(got, str):
             V("section-missing:%s:%s" % (kind, cls), "section %r (title %r) not found; keys %r" % (key, s["title"], list(las.sections)), detail)
